@@ -483,6 +483,7 @@ func vcNewCluster(o vcOpts) (c *vcCluster, err error) {
 			base = "/dev/shm"
 		}
 	}
+	vcSweepOnce.Do(func() { vcSweepStale(base) })
 	root, err := os.MkdirTemp(base, "vc-cluster-")
 	if err != nil {
 		return nil, err
@@ -638,6 +639,32 @@ func (c *vcCluster) Restart(i int) error {
 }
 
 func (c *vcCluster) Up(i int) bool { return c.nodes[i].store() != nil }
+
+// CrashRestart is Crash followed by Restart.
+func (c *vcCluster) CrashRestart(i int) error {
+	if err := c.Crash(i); err != nil {
+		return err
+	}
+	return c.Restart(i)
+}
+
+var vcSweepOnce sync.Once
+
+// vcSweepStale removes cluster directories a killed run left behind (older than 3 hours).
+func vcSweepStale(base string) {
+	ents, err := os.ReadDir(base)
+	if err != nil {
+		return
+	}
+	for _, e := range ents {
+		if !e.IsDir() || !strings.HasPrefix(e.Name(), "vc-cluster-") {
+			continue
+		}
+		if fi, err := e.Info(); err == nil && time.Since(fi.ModTime()) > 3*time.Hour {
+			os.RemoveAll(filepath.Join(base, e.Name()))
+		}
+	}
+}
 
 // TimeoutNow delivers raft's TimeoutNow message to node i (through node i's own
 // transport, i.e. as a message from itself): the node stands for election at once.
